@@ -43,11 +43,15 @@ template <class VC> static void report(FILE *out, long id, Cvt &cvt, const VC &r
     int nargs = pos >= 0 ? (int)g_args.size() + 1 : 0;
     if (pos >= 0) v = pos;          // alias: report the argument position
     // rv: the variable's own index (two requests to one converter answered with the same variable);
-    // a0lb / a0ub: the first argument's domain as it is after the call
-    fprintf(out, "{\"e\":\"Res\",\"id\":%ld,\"kind\":\"%s\",\"var\":%d,\"lb\":%s,\"ub\":%s,\"int\":%s,\"rv\":%d,\"a0lb\":%s,\"a0ub\":%s}\n", id,
+    // alb / aub: the arguments' domains as they are after the call
+    std::string albs, aubs;
+    for (size_t j = 0; j < g_args.size(); ++j) {
+      albs += (j ? "," : "") + verif::jnum(cvt.lb(g_args[j]));
+      aubs += (j ? "," : "") + verif::jnum(cvt.ub(g_args[j]));
+    }
+    fprintf(out, "{\"e\":\"Res\",\"id\":%ld,\"kind\":\"%s\",\"var\":%d,\"lb\":%s,\"ub\":%s,\"int\":%s,\"rv\":%d,\"alb\":[%s],\"aub\":[%s]}\n", id,
             pos >= 0 ? "alias" : "var", v, verif::jnum(cvt.lb(r.get_var())).c_str(), verif::jnum(cvt.ub(r.get_var())).c_str(),
-            cvt.var_type(r.get_var()) == var::INTEGER ? "true" : "false", r.get_var(),
-            g_args.empty() ? "0" : verif::jnum(cvt.lb(g_args[0])).c_str(), g_args.empty() ? "0" : verif::jnum(cvt.ub(g_args[0])).c_str());
+            cvt.var_type(r.get_var()) == var::INTEGER ? "true" : "false", r.get_var(), albs.c_str(), aubs.c_str());
   }
 }
 
